@@ -42,6 +42,7 @@ from collections import namedtuple
 from collections.abc import Iterable
 from enum import Enum
 
+from psyclone.core import AccessType
 from psyclone.psyir.nodes.call import Call
 from psyclone.psyir.nodes.datanode import DataNode
 from psyclone.psyir.nodes.literal import Literal
@@ -908,6 +909,9 @@ class IntrinsicCall(Call):
         If the 'COLLECT-ARRAY-SHAPE-READS' options is set, it will report array
         accesses used as first parameter in 'inquiry intrinsics' like
         `lbound`, `ubound`, or `size` as 'read' accesses.
+        An argument that the intrinsic defines (e.g. the `harvest` of
+        `random_number` or the `stat` of `allocate`) is a 'write' access (or
+        'readwrite' if the intrinsic may also use its value).
 
         :param var_accesses: VariablesAccessInfo instance that stores the
             information about variable accesses.
@@ -929,8 +933,36 @@ class IntrinsicCall(Call):
             for child in self.arguments[1:]:
                 child.reference_accesses(var_accesses)
         else:
-            for child in self.arguments:
-                child.reference_accesses(var_accesses)
+            dummies = _DEFINED_ARGUMENTS.get(self.intrinsic.name, ())
+            names = [name.lower() if name else None
+                     for name in self.argument_names]
+            default_access = AccessType.READ
+            if self.intrinsic in (IntrinsicCall.Intrinsic.ALLOCATE,
+                                  IntrinsicCall.Intrinsic.DEALLOCATE):
+                # All positional arguments are objects (not in the table).
+                # Those of an ALLOCATE are given the value of any SOURCE.
+                positional = ()
+                if "source" in names:
+                    default_access = AccessType.WRITE
+            else:
+                positional = dummies
+            for idx, (child, name) in enumerate(zip(self.arguments, names)):
+                if name:
+                    access = dict(dummies).get(name, AccessType.READ)
+                elif idx < len(positional):
+                    access = positional[idx][1]
+                else:
+                    access = default_access
+                if access != AccessType.READ and isinstance(child, Reference):
+                    # This argument is defined by the intrinsic. Any symbols
+                    # referenced in its index expressions are READ.
+                    sig, all_indices = child.get_signature_and_indices()
+                    for indices in all_indices:
+                        for index in indices:
+                            index.reference_accesses(var_accesses)
+                    var_accesses.add_access(sig, access, child, all_indices)
+                else:
+                    child.reference_accesses(var_accesses)
 
     # TODO #2102: Maybe the three properties below can be removed if intrinsic
     # is a symbol, as they would act as the super() implementation.
@@ -966,6 +998,62 @@ class IntrinsicCall(Call):
         '''
         return self.intrinsic.is_inquiry
 
+
+# The intrinsics that define (some of) their arguments. For each of them, the
+# dummy arguments in the order given in the Fortran 2018 standard (Section
+# 16.9) with the access to the corresponding actual argument: INTENT(IN) is
+# READ, INTENT(OUT) is WRITE and INTENT(INOUT) is READWRITE. (The objects of
+# [DE]ALLOCATE are positional and are not listed.)
+_IN, _OUT, _INOUT = AccessType.READ, AccessType.WRITE, AccessType.READWRITE
+_STAT = (("stat", _OUT), ("errmsg", _INOUT))
+_ATOMIC_OP = (("atom", _INOUT), ("value", _IN), ("stat", _OUT))
+_ATOMIC_FETCH = (("atom", _INOUT), ("value", _IN), ("old", _OUT),
+                 ("stat", _OUT))
+_COLLECTIVE = (("a", _INOUT), ("result_image", _IN)) + _STAT
+_DEFINED_ARGUMENTS = {
+    "ALLOCATE": _STAT,
+    "DEALLOCATE": _STAT,
+    "ATOMIC_ADD": _ATOMIC_OP,
+    "ATOMIC_AND": _ATOMIC_OP,
+    "ATOMIC_CAS": (("atom", _INOUT), ("old", _OUT), ("compare", _IN),
+                   ("new", _IN), ("stat", _OUT)),
+    "ATOMIC_DEFINE": (("atom", _OUT), ("value", _IN), ("stat", _OUT)),
+    "ATOMIC_FETCH_ADD": _ATOMIC_FETCH,
+    "ATOMIC_FETCH_AND": _ATOMIC_FETCH,
+    "ATOMIC_FETCH_OR": _ATOMIC_FETCH,
+    "ATOMIC_FETCH_XOR": _ATOMIC_FETCH,
+    "ATOMIC_OR": _ATOMIC_OP,
+    "ATOMIC_REF": (("value", _OUT), ("atom", _IN), ("stat", _OUT)),
+    "ATOMIC_XOR": _ATOMIC_OP,
+    "CO_BROADCAST": (("a", _INOUT), ("source_image", _IN)) + _STAT,
+    "CO_MAX": _COLLECTIVE,
+    "CO_MIN": _COLLECTIVE,
+    "CO_REDUCE": (("a", _INOUT), ("operation", _IN),
+                  ("result_image", _IN)) + _STAT,
+    "CO_SUM": _COLLECTIVE,
+    "CPU_TIME": (("time", _OUT),),
+    "DATE_AND_TIME": (("date", _OUT), ("time", _OUT), ("zone", _OUT),
+                      ("values", _OUT)),
+    "EVENT_QUERY": (("event", _IN), ("count", _OUT), ("stat", _OUT)),
+    "EXECUTE_COMMAND_LINE": (("command", _IN), ("wait", _IN),
+                             ("exitstat", _INOUT), ("cmdstat", _OUT),
+                             ("cmdmsg", _INOUT)),
+    "GET_COMMAND": (("command", _OUT), ("length", _OUT), ("status", _OUT),
+                    ("errmsg", _INOUT)),
+    "GET_COMMAND_ARGUMENT": (("number", _IN), ("value", _OUT),
+                             ("length", _OUT), ("status", _OUT),
+                             ("errmsg", _INOUT)),
+    "GET_ENVIRONMENT_VARIABLE": (("name", _IN), ("value", _OUT),
+                                 ("length", _OUT), ("status", _OUT),
+                                 ("trim_name", _IN), ("errmsg", _INOUT)),
+    "MOVE_ALLOC": (("from", _INOUT), ("to", _OUT)) + _STAT,
+    "MVBITS": (("from", _IN), ("frompos", _IN), ("len", _IN),
+               ("to", _INOUT), ("topos", _IN)),
+    "RANDOM_NUMBER": (("harvest", _OUT),),
+    "RANDOM_SEED": (("size", _OUT), ("put", _IN), ("get", _OUT)),
+    "SYSTEM_CLOCK": (("count", _OUT), ("count_rate", _OUT),
+                     ("count_max", _OUT)),
+}
 
 # TODO #658 this can be removed once we have support for determining the
 # type of a PSyIR expression.
